@@ -266,7 +266,7 @@ func (x *Exec) zeroValue(t types.Type) Value {
 func (x *Exec) freshValue(t types.Type, hint string) Value {
 	return x.mkValue(t, nil, hint, func(s *Sort, p string) Term {
 		// an unknown slice (arr, off, len) is observationally the same as (arr', 0, len): value semantics, no aliasing modelled
-		if strings.HasSuffix(p, ".$off") && s.K != SArr {
+		if strings.HasSuffix(p, ".$off") {
 			return zeroOf(s)
 		}
 		return x.vc.fresh(p, s)
